@@ -154,7 +154,9 @@ fn reset_work() {
     unsafe { shim_world::SM.polls = 0 };
 }
 fn bounded_work(limit: usize) {
-    assert!(unsafe { shim_world::SM.polls } <= limit, "one scheduling step polls the requestor streams a bounded number of times (no spinning)");
+    // the bound itself is asserted inside the StreamMap model (so that a spinning loop is a
+    // counterexample of that assertion instead of a truncated path)
+    assert!(unsafe { shim_world::SM.polls } <= limit);
 }
 
 fn wake() {
@@ -176,7 +178,10 @@ fn wake() {
 }
 
 fn run<const P: usize>(repliers: usize, requestors: usize, max_requests: usize, max_replies: usize, faults: bool, odd: bool, work_limit: usize) {
-    unsafe { shim_world::FAULTS = faults };
+    unsafe {
+        shim_world::FAULTS = faults;
+        shim_world::SM_STEP_LIMIT = work_limit;
+    }
     {
         let w = rr();
         w.max_requests = max_requests;
